@@ -504,6 +504,23 @@ fn body(ctx: &mut Ctx) {
             }
         }
     }
+    // V6: dense LCG values of every length
+    if ctx.space("V6") {
+        let lmax = tier.pick(70usize, 140usize);
+        for l in 1..=lmax {
+            if !ctx.mine(l as u64) {
+                continue;
+            }
+            for salt in 0..2u64 {
+                let v = Nat::from_digits(&alpha::lcg_digits(l, salt));
+                out_value(ctx, &Int::new(false, v.clone()), &all_text, if l <= 20 || l % 16 <= 1 { &all_digit } else { &some_digit });
+                out_value(ctx, &Int::new(true, v), &[7, 10, 16, 32, 36], &[]);
+            }
+            if l == 65 {
+                ctx.sample(|| "dense LCG values of 65 native digits: every text radix, digit radices, round trips".to_string());
+            }
+        }
+    }
     // V5: powers of the super-chunk base
     if ctx.space("V5") {
         let rads: &[u32] = &all_digit;
